@@ -77,10 +77,11 @@ def wrappers(spec: dom.ClassSpec) -> tuple[type, type]:
 class Finding:
     """One failed sub-check of one instance."""
 
-    __slots__ = ("oracle", "cls", "detail", "fmt", "what")
+    __slots__ = ("oracle", "cls", "detail", "fmt", "what", "cands")
 
     def __init__(self, oracle: str, cls: str, detail: str, fmt: str | None, what: str) -> None:
         self.oracle, self.cls, self.detail, self.fmt, self.what = oracle, cls, detail, fmt, what
+        self.cands: frozenset = frozenset()   # formats whose packer could be responsible (filled in by evaluate)
 
     def ident(self) -> tuple:
         return (self.oracle, self.cls, self.detail)
@@ -156,12 +157,16 @@ def evaluate(spec: dom.ClassSpec, descs: list, contexts: tuple = CONTEXTS) -> tu
     try:
         inst = spec.build(descs)
     except Exception as e:  # noqa: BLE001
-        return [Finding("construct-raises", spec.name, "", None, f"{spec.name}(...) raised {_exc(e)}")], info
+        found = [Finding("construct-raises", spec.name, "", None, f"{spec.name}(...) raised {_exc(e)}")]
+        _attribute(spec, found)
+        return found, info
     try:
         enc = ser.pack_serializable(inst)
     except Exception as e:  # noqa: BLE001
-        return [Finding("pack-raises", spec.name, "", spec.single_format,
-                        f"{spec.name}: pack_serializable raised {_exc(e)}")], info
+        found = [Finding("pack-raises", spec.name, "", spec.single_format,
+                         f"{spec.name}: pack_serializable raised {_exc(e)}")]
+        _attribute(spec, found)
+        return found, info
     info["enc_len"] = len(enc)
     bytes_ok = enc == ref
     if not bytes_ok:
@@ -197,12 +202,13 @@ def evaluate(spec: dom.ClassSpec, descs: list, contexts: tuple = CONTEXTS) -> tu
                                        f"{spec.name}: pack_serializable_list gives {_hex(data, _first_diff(data, want))}, "
                                        f"expected {_hex(want, _first_diff(data, want))}"))
                 objs = ser.unpack_serializable_list([BinMemberAuthenticationPayload, GlobalTimeDistributionPayload,
-                                                     spec.cls], data, 23)
-                if len(objs) != 3 or objs[0].public_key_bin != key or objs[1].global_time != GLOBAL_TIME:
+                                                     spec.cls], data, 23, consume_all=False)
+                if len(objs) != 4 or objs[0].public_key_bin != key or objs[1].global_time != GLOBAL_TIME:
                     cur.append(Finding("roundtrip", spec.name, "datagram-headers", None,
                                        f"{spec.name}: the two header payloads in front of it did not survive"))
-                else:
-                    check_decoded(spec, descs, objs[2], 0, 0, enc, ser, "as third payload of a datagram", cur)
+                else:  # the unconsumed remainder must be empty: the payload ends exactly where the datagram ends
+                    check_decoded(spec, descs, objs[2], len(data) - len(objs[3]), len(data), enc, ser,
+                                  "as third payload of a datagram", cur)
             elif name == "nested":
                 if not nestable:
                     info["skipped"] += 1
@@ -235,7 +241,7 @@ def evaluate(spec: dom.ClassSpec, descs: list, contexts: tuple = CONTEXTS) -> tu
                 want = struct.pack(">HB", SENTINEL_A, len(items)) + b"".join(
                     struct.pack(">H", len(r)) + r for r in [spec.ref_encode(d) for d in items_descs]) \
                     + struct.pack(">H", SENTINEL_B)
-                if bytes_ok and data != want:
+                if bytes_ok and data != want and (len(items) == 1 or ser.pack_serializable(items[1]) == spec.ref_encode(other)):
                     cur.append(Finding("wire-bytes", spec.name, "list", "payload-list",
                                        f"{spec.name} in a payload-list: {_hex(data, _first_diff(data, want))}, "
                                        f"expected {_hex(want, _first_diff(data, want))}"))
@@ -247,9 +253,9 @@ def evaluate(spec: dom.ClassSpec, descs: list, contexts: tuple = CONTEXTS) -> tu
                 else:
                     check_decoded(spec, descs, obj.items[0], end, 23 + len(data), enc, ser,
                                   f"as first item of a payload-list of {len(items)}", cur)
-                    if len(items) == 2:
-                        check_decoded(spec, other, obj.items[1], end, 23 + len(data), ser.pack_serializable(items[1]), ser,
-                                      "as second item of a payload-list of 2", cur)
+                    if len(items) == 2 and spec.compare(other, obj.items[1]) and not _top_level_broken(spec, other):
+                        cur.append(Finding("roundtrip", spec.name, "list-second-item", "payload-list",
+                                           f"{spec.name}: the second item of a payload-list of 2 does not survive"))
         except Exception as e:  # noqa: BLE001
             cur.append(Finding("unpack-raises", spec.name, "", spec.single_format,
                                f"{spec.name}: decoding ({name}) raised {_exc(e)}"))
@@ -260,7 +266,39 @@ def evaluate(spec: dom.ClassSpec, descs: list, contexts: tuple = CONTEXTS) -> tu
             elif f.ident() not in top_idents:
                 f.detail = f"{f.detail}@{kind}" if f.detail else f"@{kind}"
                 found.append(f)
+    _attribute(spec, found)
     return found, info
+
+
+_FORMAT_NAMES: dict[str, frozenset] = {}
+
+
+def format_names(format_list: list) -> frozenset:
+    """Every packer name involved in decoding this format list (recursively through nested payloads)."""
+    names: set = set()
+    for fmt in format_list:
+        if isinstance(fmt, str):
+            names.add(fmt)
+        elif isinstance(fmt, list):
+            names.add("payload-list")
+            names |= format_names(fmt[0].format_list)
+        else:
+            names.add("payload")
+            names |= format_names(fmt.format_list)
+    return frozenset(names)
+
+
+def _attribute(spec: dom.ClassSpec, found: list) -> None:
+    """Candidate formats of each finding: the failing field's format if it is known, else all of the class."""
+    if not found:
+        return
+    if spec.key not in _FORMAT_NAMES:
+        _FORMAT_NAMES[spec.key] = format_names(spec.ref_format_list)
+    for f in found:
+        if f.oracle in ("roundtrip", "wire-bytes") and f.fmt is not None and f.fmt not in ("payload", "payload-list"):
+            f.cands = frozenset([f.fmt])
+        else:
+            f.cands = _FORMAT_NAMES[spec.key]
 
 
 def evaluate_class_once(spec: dom.ClassSpec) -> tuple[list, int]:
@@ -296,6 +334,7 @@ def evaluate_class_once(spec: dom.ClassSpec) -> tuple[list, int]:
         except Exception as e:  # noqa: BLE001
             found.append(Finding("unpack-raises", spec.name, f"list{count}", "payload-list",
                                  f"{spec.name}: payload-list of {count} raised {_exc(e)}"))
+    _attribute(spec, found)
     return found, evaluations
 
 
@@ -501,7 +540,7 @@ def _merge(table: dict, found: list, replay: dict, size: int) -> None:
             order = _order(replay, size)
         cur = table.get(ident)
         if cur is None or order < cur[0]:
-            table[ident] = (order, f.fmt, f.what, replay)
+            table[ident] = (order, f.fmt, f.what, replay, sorted(f.cands))
 
 
 def plan(ctx: core.Ctx) -> tuple[list, dict]:
@@ -525,19 +564,38 @@ def plan(ctx: core.Ctx) -> tuple[list, dict]:
 
 def keys_from(findings: dict) -> list[core.Violation]:
     """
-    (oracle, class, detail) -> violation keys.  When the same oracle fails on the same *format* in more than two
-    classes (a packer defect), those are folded into one key ``<oracle>:format:<fmt>``.
+    (oracle, class, detail) -> violation keys, coarse enough that one defect gives a handful of keys:
+
+    * a packer that fails its direct check gives ``format:<fmt>:<oracle>``; findings in classes that can be blamed
+      on that packer (it decodes the failing field, or any field if the field is unknown) are folded into it;
+    * the same oracle failing on the same format in more than two classes gives ``<oracle>:format:<fmt>``
+      (packers without a direct check: ``payload``, ``payload-list``);
+    * everything else is ``<oracle>:<class>[:<field or position>]``.
     """
+    broken = {fmt for (_o, cls, _d), entry in findings.items() if cls.startswith("packer<") for fmt in [entry[1]]}
     by_fmt: dict[tuple, set] = {}
-    for (oracle, cls, _detail), (_order_, fmt, _what, _replay) in findings.items():
-        if fmt is not None:
-            by_fmt.setdefault((oracle, fmt), set()).add(cls)
+    swallowed: dict[str, set] = {}
+    rest = {}
+    for ident, entry in findings.items():
+        oracle, cls, _detail = ident
+        if not cls.startswith("packer<") and broken & set(entry[4]):
+            for fmt in broken & set(entry[4]):
+                swallowed.setdefault(fmt, set()).add(cls)
+            continue
+        rest[ident] = entry
+        if entry[1] is not None and not cls.startswith("packer<"):
+            by_fmt.setdefault((oracle, entry[1]), set()).add(cls)
     folded: dict[str, tuple] = {}
-    for (oracle, cls, detail), (order, fmt, what, replay) in sorted(findings.items(), key=lambda kv: kv[0]):
+    for (oracle, cls, detail), (order, fmt, what, replay, _cands) in sorted(rest.items(), key=lambda kv: kv[0]):
         group = by_fmt.get((oracle, fmt), set()) if fmt is not None else set()
-        if len(group) > 2:
+        if cls.startswith("packer<"):
+            key = f"format:{fmt}:{oracle}"
+            if swallowed.get(fmt):
+                names = sorted(swallowed[fmt])
+                what = f"{what}   [also fails in {len(names)} classes using this format: {', '.join(names[:10])}]"
+        elif len(group) > 2:
             key = f"{oracle}:format:{fmt}"
-            what = f"{what}   [same failure in {len(group)} classes: {', '.join(sorted(group)[:12])}]"
+            what = f"{what}   [same failure in {len(group)} classes: {', '.join(sorted(group)[:10])}]"
         else:
             key = f"{oracle}:{cls}" + (f":{detail}" if detail else "")
         if key not in folded or order < folded[key][0]:
